@@ -447,6 +447,8 @@ def shrink(ck, drv, c, rng_unused):
     """Greedy item/argument removal keeping the `violation` verdict."""
     def fails(cand):
         model_batch(ck, drv, [cand])
+        if cand["items"] is None and cand["model"]["outcome"] != "usage":
+            return False, None      # a malformed line must stay malformed while it is shrunk
         r = drv.run(cand["argv"], files=files_for(cand["argv"]))
         v = judge(ck, drv, cand, r, {"findings": {}})
         return v is not None and v[0] == "violation", v
